@@ -1,7 +1,7 @@
 (* C08 - Windows join and push follow the documented joining rules. *)
 From Coq Require Import List NArith Bool.
 Import ListNotations.
-From TP Require Import Core Path Unix Win Spec C08Proofs.
+From TP Require Import Core Path Unix Win Spec C08Proofs GenJoin WinSimple.
 
 (* The rule table is Spec.join_spec (written over the grammar specification wspec only):
      b empty                      -> a
@@ -41,10 +41,34 @@ Theorem C08_verbatim_step_clean : forall (acc : list wcomp) (c : wcomp),
   forallb (fun x => negb (k_is_cur x || k_is_parent x)) (vstep acc c) = true.
 Proof. exact vstep_no_dots. Qed.
 Print Assumptions C08_verbatim_step_clean.
-(* C08_comps_partial: the component-level reading ("a's components followed by b's") of the
-   non-verbatim branches is not proved for Windows; it is checked on every explored pair through the
-   C10 oracle (the join starts with a and stripping a yields b's components) and holds at Unix by
-   C04_unix_contains. *)
+(* the component-level reading, for paths without UNC / verbatim / device prefix: b prefix-free, non-empty *)
+(* ... a prefix-free (not starting with two separators), b relative: a's components followed by b's
+   (minus a leading "." of b, which no longer starts the path), or b itself when a is empty *)
+Theorem C08_comps_plain : forall a b : list N, noprefix a = true -> noprefix b = true ->
+  g_rooted (wsep true) b = false -> b <> [] ->
+  wspec (w_push a b) = match a with [] => wspec b | _ => wspec a ++ map WC (gadded (wsep true) b) end.
+Proof. exact wspec_join_plain. Qed.
+(* ... a with a drive prefix X:, b relative: the same; after a bare drive no separator is inserted and a
+   leading "." of b still starts the path *)
+Theorem C08_comps_disk : forall (d : N) (ra b : list N), s_alpha d = true -> noprefix b = true ->
+  g_rooted (wsep true) b = false -> b <> [] ->
+  wspec (w_push (d :: 58 :: ra) b) =
+  match ra with
+  | [] => WPrefix [d; 58] (Disk (s_upper d)) :: map WC (gcomps (wsep true) b)
+  | _ => wspec (d :: 58 :: ra) ++ map WC (gadded (wsep true) b)
+  end.
+Proof. exact wspec_join_disk. Qed.
+(* ... b rooted (no prefix): a's prefix followed by b *)
+Theorem C08_comps_rooted_disk : forall (d : N) (ra b : list N), s_alpha d = true -> noprefix b = true ->
+  g_rooted (wsep true) b = true ->
+  wspec (w_push (d :: 58 :: ra) b) = WPrefix [d; 58] (Disk (s_upper d)) :: map WC (gcomps (wsep true) b).
+Proof. exact wspec_join_rooted_disk. Qed.
+Print Assumptions C08_comps_plain.
+Print Assumptions C08_comps_disk.
+Print Assumptions C08_comps_rooted_disk.
+(* C08_comps_partial: for a with a UNC / verbatim / device prefix the component-level reading is decided
+   on every explored pair through the C10 oracle (the join starts with a and stripping a yields b's
+   components); at Unix it holds by C04_unix_contains. *)
 
 Example C08_example :
   w_push [67;58] [97] = [67;58;97]                                    (* C: + a = C:a *)
